@@ -23,13 +23,13 @@ P = {
         "name": "requests", "pkg": "./internal/rules", "test": "TestVerifC08",
         "overlay": {"internal/rules/zz_verif_c08_test.go": "c08/c08_test.go"},
         "eval_module": "Run.Eval_C08", "check_term": "check " + FX,
-        "n_quick": 1200, "n_thorough": 30000, "shard": 150,
+        "n_quick": 1000, "n_thorough": 30000, "shard": 150,
         "findings": {1: "C08-F1", 4: "C08-F4", 5: "C08-F5"},
     }, {
         "name": "envoy", "pkg": "./internal/rules", "test": "TestVerifC08Envoy",
         "overlay": {"internal/rules/zz_verif_c08_test.go": "c08/c08_test.go"},
         "eval_module": "Run.Eval_C08", "check_term": "check_envoy " + FX,
-        "n_quick": 600, "n_thorough": 15000, "shard": 150,
+        "n_quick": 500, "n_thorough": 15000, "shard": 150,
         "findings": {1: "C08-F1", 4: "C08-F4", 5: "C08-F5"},
     }, {
         "name": "units", "pkg": "./internal/rules", "test": "TestVerifC08Units",
@@ -41,7 +41,7 @@ P = {
         "name": "gourl", "pkg": "./internal/rules/config", "test": "TestVerifGoUrl",
         "overlay": {"internal/rules/config/zz_verif_gourl_test.go": "gourl/gourl_test.go"},
         "eval_module": "Run.Eval_GoUrl", "check_term": "check",
-        "n_quick": 3000, "n_thorough": 40000, "findings": {},
+        "n_quick": 2500, "n_thorough": 40000, "findings": {},
     }],
     "rule": "envoy: the same generator and corpus, both spellings handed to grpcv3.NewRequestContext + the real executor.  requests: a base path of 1-4 segments (words, values with escapes of unreserved/reserved octets, %2F/%2f, "
             "place-holder text, bytes net/url rejects, malformed escapes), 1-4 rules derived from it (literal / :wildcard / "
@@ -70,8 +70,8 @@ P = {
                   "and the captured values are unchanged outside the guard of finding C08-F1; a path with %2F/%2f is "
                   "never accepted by an `off` rule or the default rule outside C08-F4; captured values are the decoded pieces of the path "
                   "(`no_decode`: all but the encoded slash; place-holder trick proved correct) and the upstream raw path is kept / dropped, outside C08-F4/F5.  Each guard has a `_refuted` witness.  The model is tied "
-                  "to the code by three differential streams per run (~1200 request pairs through the real net/http server/"
-                  "repository/executor, ~600 through the real Envoy request context, ~1500 unescape units, ~3000 net/url cases; "
+                  "to the code by three differential streams per run (~1000 request pairs through the real net/http server/"
+                  "repository/executor, ~500 through the real Envoy request context, ~1500 unescape units, ~2500 net/url cases; "
                   "30000/15000/30000/40000 in the thorough tier).",
     "level_note": "Trusted: Coq kernel/vm_compute; the correspondence harness (generator, stub authenticator, Gallina rendering); "
                   "the radix tree abstracted to a segment-wise search (C02/C03 own the tree), generator restricted to inputs "
